@@ -95,6 +95,9 @@ def run(chk: Check, proj: Project) -> None:
                f"`{short(short_[0])}` under `{' and '.join(('' if pol else 'not ') + t for t, pol in cond_atoms(short_[0])) or 'some condition'}` skips the class: a component whose Media is declared two or more levels up (no own Media, none on the direct parent) contributes none of its Media.js / Media.css files")
     chk.borrow("S21", "the Media files of every class in the merge are delivered with RESOLVED paths: each class's Media is resolved (relative files rewritten against that class's own file) before it is read into the merged, memoised result - resolving only the class that was asked for leaves an inherited `relative_file.js` unresolved, and the page links a URL that does not exist (shared with C16-S4)",
                lambda sub: __import__("djc_sa.rules.C16", fromlist=["x"]).s4(sub, proj, proj.mod("component_media")), only=lambda o: "resolves-before-reading" in o.construct)
+    chk.borrow("S22", "a page rendered while ANOTHER thread is first touching a component class gets that class's complete assets: the `resolved` flag of the lazy js_file / css_file loader is set last, and the per-class Media memo is published only once every selected base is merged - a half-built object read by a concurrent render yields a page without the component's inline JS or without the inherited Media files (shared with C16-S4 / C16-S2)",
+               lambda sub: (__import__("djc_sa.rules.C16", fromlist=["x"]).s4(sub, proj, proj.mod("component_media")), __import__("djc_sa.rules.C16", fromlist=["x"]).s2(sub, proj, proj.mod("component_media"))),
+               only=lambda o: "resolved-is-last" in o.construct or "entry-complete-when-published" in o.construct)
     chk.rule("S20", "twin-kind argument agreement, package-wide: an argument that names one script kind (`css_input_hash`, `.js_file`, 'css') is bound to a callee parameter / field of the same kind - the js / css twins have the same types, so a swap compiles and passes every single-kind test (shared with C19-S14, C16)")
     generic.kind_named_args(chk, "S20", proj, w.cg, ["component", "dependencies", "component_media", "components.dynamic"], floor=12)
     chk.borrow("S19", "every collected tag / URL reaches the output under its OWN kind: kind flow (js / css lattice) through _prepare_tags_and_urls, _process_dep_declarations, _gen_exec_script and render_dependencies - a Media(js=..) / Media(css=..) list, a ScriptType argument, a wire key or a placeholder replacement never receives the other kind, and no kind-carrying part of a helper's result is dropped (shared with C19-S11)",
